@@ -604,6 +604,12 @@ class Engine:
         """init=True: initialisation of an object allocated by the very operation that stores (not an effect on existing state)"""
         owner = R.field_owner(cname, fname)
         if owner is None:
+            c = self.contract
+            if c is not None and not init and not (self.key or "").endswith("__init__"):       # a constructor may give its object new attributes
+                # a field no contract declares cannot be in any modifies clause: writing it on an object that existed before the call is a write outside
+                # the frame (a new attribute on notation / shared state).  Decidable although the rest of the function is not.
+                self.oblige(st, obj_t > st.old.heap.alloc, "frame", f"{cname}.{fname}", node,
+                            text=f"store to {cname}.{fname}, a field no contract declares, targets an object allocated by this call (otherwise: a write outside the frame)")
             raise Unsupported(f"store to undeclared field {cname}.{fname}")
         fs = R.class_fields(cname)[fname]
         name = f"{owner}.{fname}"
